@@ -58,6 +58,51 @@ fn main() {
     let cfg = RunCfg { prop: prop.clone(), trace: false };
     let mut seen: std::collections::BTreeSet<String> = Default::default();
     let mut samples = 0;
+    // C13: bounded-exhaustive family of short idle histories, on top of the random ones
+    let enum_len = if prop == "C13" && args.get_str("only").is_none() { args.get_u64("enumlen", if args.thorough() { 6 } else { 5 }) as usize } else { 0 };
+    let mut enum_total = 0u64;
+    for l in 1..=enum_len {
+        let n = cverif::hist::gen::C13_SYMBOLS.pow(l as u32);
+        for idx in 0..n {
+            if (idx + l as u64) % args.nshards != args.shard {
+                continue;
+            }
+            let h = cverif::hist::gen::c13_enumerated(idx, l);
+            let o = run_history(&h, &cfg);
+            res.evaluations += 1;
+            enum_total += 1;
+            for (k, v) in &o.ev {
+                *res.events.entry(k.clone()).or_insert(0) += v;
+            }
+            if o.ev.get("idle_ran").copied().unwrap_or(0) > 0 {
+                res.nontrivial += 1;
+                res.classes.insert(fnv(&[0xC13, l as u64, idx]));
+            }
+            if let Some(f) = &o.harness_fault {
+                if res.inconclusive.len() < 5 {
+                    res.inconclusive.push(format!("enumerated C13 history {} of length {}: {}", idx, l, f));
+                }
+                continue;
+            }
+            if let Some(a) = own(&o, &prop) {
+                let sig = format!("{}/{}", a.clause, a.culprit);
+                res.cov(&format!("alarm:{}", sig), 1);
+                if seen.insert(sig) && res.violations.len() < 12 {
+                    res.violations.push(Violation {
+                        prop: prop.clone(),
+                        clause: a.clause[prop.len() + 1..].to_string(),
+                        culprit: a.culprit.clone(),
+                        detail: format!("{} [enumerated idle history {} of length {}]", a.detail, idx, l),
+                        replay: json!({"engine": "hist", "enumerated": [idx, l], "history": h}),
+                    });
+                }
+            }
+        }
+    }
+    if enum_len > 0 {
+        res.cov("enumerated_idle_histories", enum_total);
+        res.notes.push(format!("C13: every sequence of 1..{} symbols of the 10-symbol idle alphabet was executed (exhaustive for that family)", enum_len));
+    }
     let only = args.get_str("only").and_then(|s| s.parse::<u64>().ok());
     for i in 0..per {
         if let Some(o) = only {
